@@ -268,10 +268,7 @@ func main() {
 		f, _ := os.Create(pf)
 		pprof.StartCPUProfile(f)
 	}
-	joinHistory := func() map[string]any { return nil }
-	if os.Getenv("C45_NOWORK") == "" {
-		joinHistory = startHistoryWorkers()
-	}
+	joinHistory := startHistoryWorkers()
 	prefixes := []string{"g", "gpub", "a", "1", "g1x", "x-_~!", "0", "g9", strings.Repeat("a", 83)}
 
 	// payload universe
